@@ -341,3 +341,5 @@ def run(ctx):
 def run_thorough(ctx):
     # A8: clauses enforced by the type system itself, witnessed by compile_fail doctests with compiling twins
     ctx.witness("R09.6", ['PrivateChildState', 'PrivateDetached', 'NoClone', 'NoLiteral', 'WaitNeedsMut'])
+
+    deep_census(ctx, "R09.2", WAIT_EXTERNS, {"waitpid": ["posix::waitpid"]})
